@@ -5,7 +5,7 @@ import itertools
 from fractions import Fraction
 
 from ..core import (numpy, numpoly, run_driver, poly_to_struct, den_of_struct, den_key, err_kind, wf_problems, Monitor,
-                    coef_json)
+                    coef_json, coef_from_json)
 from .. import gen
 
 RULE = ("polynomial arrays of 1-3 dimensions x {sum, cumsum, mean, prod, diff, ediff1d} x every axis / axis tuple / "
@@ -148,8 +148,42 @@ def affine_part(info, shape, dtype):
     return numpy.diff(zero, n=info["n"], axis=info["axis"], **kw)
 
 
+def table_request(info, shape):
+    """the reduction as a request for the model's own index arithmetic (Np/Model/ReduceFns.lean); None where the model
+    has no table (prepend/append)"""
+    nd = len(shape)
+    fn = info["fn"]
+    if fn == "diff" and ("prepend" in info or "append" in info):
+        return None
+    ax = info.get("axis")
+    if isinstance(ax, (tuple, list)):
+        ax = [int(a) % nd for a in ax]
+    elif ax is not None:
+        ax = int(ax) % nd
+    req = {"op": "reducetable", "fn": fn, "shape": list(shape), "axis": ax, "keepdims": bool(info.get("keepdims", False))}
+    if fn == "diff":
+        req["n"] = int(info["n"])
+    return req
+
+
+def table_matches(ans, W, oshape):
+    """-> None or a description of the difference between the model's table and the one numpy's function acts by"""
+    if ans.get("kind") != "table":
+        return f"the model has no table ({ans}) where numpy accepts the arguments"
+    if list(ans["shape"]) != list(oshape):
+        return f"model output shape {ans['shape']} != numpy's {list(oshape)}"
+    den = Fraction(1, int(ans["den"]))
+    mine = [{int(j): Fraction(int(w)) * den for j, w in row if int(w) != 0} for row in ans["W"]]
+    theirs = [{int(j): coef_from_json(w) for j, w in row} for row in W]
+    if mine != theirs:
+        k = next((i for i, (x, y) in enumerate(zip(mine, theirs)) if x != y), min(len(mine), len(theirs)))
+        return f"weights differ at output position {k}: model {mine[k] if k < len(mine) else None}, numpy {theirs[k] if k < len(theirs) else None}"
+    return None
+
+
 def run_linear(ctx, rng, n, monitor):
     cases, drv = [], []
+    treqs, tmeta = [], []
     for i in range(n):
         a, impl, ref, info = gen_linear(rng)
         try:
@@ -160,6 +194,16 @@ def run_linear(ctx, rng, n, monitor):
         cases.append((a, impl, info, oshape))
         drv.append({"id": len(drv), "op": "linear", "opts": {"retain_coefficients": False, "retain_names": True},
                     "a": strip(a), "shape": oshape, "W": W})
+        req = table_request(info, a["shape"])
+        if req is not None:
+            treqs.append(dict(req, id=len(treqs)))
+            tmeta.append((info, a["shape"], W, oshape))
+    # numpy's index arithmetic as modelled (and characterised by theorems) in Lean against numpy itself
+    for (info, shape, W, oshape), ans in zip(tmeta, run_driver(treqs)):
+        ctx.count("model-table")
+        problem = table_matches(ans, W, oshape)
+        if problem:
+            raise RuntimeError(f"Np.ReduceFns and numpy disagree on {info} for shape {shape}: {problem}")
     answers = run_driver(drv)
     for (a, impl, info, oshape), model in zip(cases, answers):
         case = {"kind": "linear", "a": a, **{k: (list(v) if isinstance(v, tuple) else v) for k, v in info.items()}}
@@ -218,6 +262,12 @@ def run_prod(ctx, rng, n, monitor):
         kd = bool(rng.integers(2))
         spell = gen.choice(rng, ["numpoly", "numpy", "method"])
         groups, oshape = prod_groups(sh, ax, kd)
+        if isinstance(ax, int):
+            # the model's own product groups (Np.ReduceFns.prodAxisGroups) against the ones derived with numpy
+            mt = run_driver([{"id": 0, "op": "prodtable", "shape": list(sh), "axis": ax % len(sh), "keepdims": kd}])[0]
+            ctx.count("model-table")
+            if mt.get("kind") != "groups" or mt["groups"] != groups or list(mt["shape"]) != list(oshape):
+                raise RuntimeError(f"Np.ReduceFns.prodAxisGroups and numpy disagree for shape {sh} axis {ax} keepdims {kd}: {mt} vs {groups} {oshape}")
         cases.append((a, ax, kd, spell, oshape, npint(rng, ax)))
         drv.append({"id": len(drv), "op": "prodgroups", "opts": {"retain_coefficients": False, "retain_names": True},
                     "a": strip(a), "shape": oshape, "groups": groups})
